@@ -52,6 +52,7 @@ def run(res):
     res.obligations += ths
     res.discharged += ths
     res.coverage["print_assumptions"] = rep
+    facts_err = vlib.check_fact_props(res, "C13f", "panic-capable constructs of the macro crate")
 
     # regression corpus first
     for name in CORPUS:
@@ -105,6 +106,7 @@ def run(res):
                                                                          "model": (r.model_status, r.model_pos)}})
     else:
         res.discharged.append(name)
+    vlib.report_fact_failure(res, "C13f", facts_err, "panic-capable constructs of the macro crate")
     res.coverage.update({
         "evaluations": len(recs),
         "distinct_nontrivial": sum(1 for r in recs if r.origin not in ("valid", "special") and r.real_status in ("ok", "err")),
